@@ -9,6 +9,7 @@ mod asm;
 mod eng;
 mod out;
 mod rng;
+mod suite_a;
 mod suite_c;
 mod suite_e;
 mod suite_f;
@@ -40,7 +41,8 @@ fn main() {
             let lines = match suite.as_str() {
                 "T" => suite_t::gen(&mut rng, &suite_t::Params { cases, max_ops }),
                 "C" => suite_c::gen(&mut rng, &suite_c::Params { cases }),
-                "E" => suite_e::gen(&mut rng, &suite_e::Params { cases, max_ops }),
+                "A" => suite_a::gen(&mut rng, &suite_a::Params { cases }),
+                "E" | "L" => suite_e::gen(&mut rng, &suite_e::Params { cases, max_ops }),
                 "F" => suite_f::gen(&mut rng, &suite_f::Params { cases }),
                 "P" => suite_p::gen(&mut rng, &suite_p::Params { cases, big: max_ops }),
                 _ => {
@@ -63,9 +65,11 @@ fn main() {
             match suite.as_str() {
                 "T" => suite_t::exec(&lines, &mut out, &scratch),
                 "C" => suite_c::exec(&lines, &mut out),
+                "A" => suite_a::exec(&lines, &mut out, &scratch),
                 "P" => suite_p::exec(&lines, &mut out),
                 "F" => suite_f::exec(&lines, &mut out, &scratch),
                 "E" => suite_e::exec(&lines, &mut out, &scratch),
+                "L" => suite_e::exec_locks(&lines, &mut out, &scratch, &out_dir),
                 _ => {
                     eprintln!("unknown suite {}", suite);
                     std::process::exit(2);
